@@ -216,11 +216,21 @@ def stage_c_docs(rng, tier):
     out.append(("atlas-models", atlas["models"]))
     out.append(("atlas-allof", atlas["allof"]))
     k = 4 if tier == "quick" else 24
-    seeds = [11, 23, 37, 41, 53, 67, 71, 83, 97, 101, 113, 127, 131, 149, 151, 163, 173, 181, 191, 199, 211, 223, 227, 229][:k]
-    for sd in seeds:
-        d, _ = GD.gen_document(random.Random(sd), n_schemas=7, n_ops=3)
-        out.append((f"gen{sd}", d))
+    # the generated base documents are PINNED (corpus/C08/base_docs.json, written once from gen/docs.py gen_document(Random(seed), n_schemas=7,
+    # n_ops=3)): later changes of the shared generator do not silently change this check's inputs; delete the file to re-pin
+    pinned = VERIF / "corpus" / "C08" / "base_docs.json"
+    if pinned.exists():
+        docs = json.loads(pinned.read_text())
+    else:
+        docs = {f"gen{sd}": GD.gen_document(random.Random(sd), n_schemas=7, n_ops=3)[0] for sd in PIN_SEEDS}
+        pinned.parent.mkdir(parents=True, exist_ok=True)
+        pinned.write_text(json.dumps(docs, indent=0, sort_keys=False))
+    for sd in PIN_SEEDS[:k]:
+        out.append((f"gen{sd}", docs[f"gen{sd}"]))
     return out
+
+
+PIN_SEEDS = [11, 23, 37, 41, 53, 67, 71, 83, 97, 101, 113, 127, 131, 149, 151, 163, 173, 181, 191, 199, 211, 223, 227, 229]
 
 
 BAD_SCHEMA = {
@@ -415,6 +425,55 @@ def ops_of(doc):
     return out
 
 
+def users_of_models(files):
+    """models/<m>.py -> set of api/<tag>/<op>.py modules of the tree that import it, directly or through other models modules"""
+    imp = {}
+    for f, b in files.items():
+        if f.endswith(".py") and not f.endswith("__init__.py") and (f.startswith("api/") or f.startswith("models/")):
+            imp[f] = {"models/" + m + ".py" for m in re.findall(r"models\.([A-Za-z0-9_]+) import", b.decode("utf-8", "replace"))}
+    out = {}
+    for f in imp:
+        if not f.startswith("api/"):
+            continue
+        seen, todo = set(), list(imp[f])
+        while todo:
+            m = todo.pop()
+            if m in seen:
+                continue
+            seen.add(m)
+            todo.extend(imp.get(m, ()))
+        for m in seen:
+            out.setdefault(m, set()).add(f)
+    return out
+
+
+def multipart_models(opjson):
+    """component names an operation sends as multipart/form-data by reference"""
+    out = set()
+    rb = (opjson or {}).get("requestBody")
+    if isinstance(rb, dict):
+        for ct, media in (rb.get("content") or {}).items():
+            if ct.split(";")[0].strip() == "multipart/form-data":
+                ref = ((media or {}).get("schema") or {}).get("$ref", "")
+                if ref.startswith(REF):
+                    out.add(ref[len(REF):])
+    return out
+
+
+def strip_multipart(src: bytes):
+    """ast dump of a model module without its to_multipart methods and without `import json`"""
+    import ast
+    try:
+        tree = ast.parse(src.decode("utf-8"))
+    except SyntaxError:
+        return None
+    tree.body = [n for n in tree.body if not (isinstance(n, ast.Import) and [a.name for a in n.names] == ["json"])]
+    for n in tree.body:
+        if isinstance(n, ast.ClassDef):
+            n.body = [x for x in n.body if not (isinstance(x, ast.FunctionDef) and x.name == "to_multipart")]
+    return ast.dump(tree)
+
+
 def c_worker(job):
     """one (D, b, position) case. Returns a dict with findings (lists of plain data)."""
     label, doc, base_files, inserts, seed = job          # inserts: [(position, piece name)], one (quick) or two (thorough pairs)
@@ -453,6 +512,13 @@ def c_worker(job):
                     res["problems"].append({"kind": "piece-undiagnosed", "owner": list(o), "diagnostics": [h for _, h, _ in diags][:6]})
             orig_keys = {f"{ps[2].upper()} {ps[1]}" for ps, _ in inserts if ps[0] == "op"}
             op_owner_keys = {o[1] for o in owners if o[0] == "op"}
+            def api_related(f):
+                key, opjson = ops1.get(f, (None, None))
+                return (key is not None and key in orig_keys) or (opjson is not None and op_touched(opjson))
+            def api_named(f):
+                key, _ = ops1.get(f, (None, None))
+                return (key is not None and names_op(text, key)) or (key in orig_keys and any(names_op(text, k2) for k2 in op_owner_keys))
+            model_users = users_of_models(base_files)
             # ---- (i) byte identity of unrelated modules; (iii) diagnostics for what disappeared / changed
             for f, content in base_files.items():
                 if not f.endswith(".py"):
@@ -466,14 +532,21 @@ def c_worker(job):
                 names, related = [], False
                 if f.startswith("models/"):
                     owners = own_map1.get(f[len("models/"):], set())
-                    related = bool(owners & bad_comps)
-                    names = sorted(owners)
-                    named = any(names_schema(text, n) for n in names)
+                    if owners:
+                        related = bool(owners & bad_comps)
+                        names = sorted(owners)
+                        named = any(names_schema(text, n) for n in names)
+                    else:
+                        # a class minted by operations (inline body / parameter / response schema): it belongs to the operations whose
+                        # modules import it, directly or through other inline classes
+                        users = sorted(model_users.get(f, ()))
+                        related = bool(users) and all(api_related(u) for u in users)
+                        names = [ops1.get(u, (None, None))[0] for u in users]
+                        named = any(api_named(u) for u in users)
                 elif f.startswith("api/"):
-                    key, opjson = ops1.get(f, (None, None))
-                    related = (key is not None and key in orig_keys) or (opjson is not None and op_touched(opjson))
-                    names = [key]
-                    named = (key is not None and names_op(text, key)) or (key in orig_keys and any(names_op(text, k2) for k2 in op_owner_keys))
+                    related = api_related(f)
+                    names = [ops1.get(f, (None, None))[0]]
+                    named = api_named(f)
                 else:
                     named = False
                 if f not in files2:
@@ -483,7 +556,16 @@ def c_worker(job):
                         res["problems"].append({"kind": "undiagnosed", "module": f, "owners": names})
                 elif files2[f] != content:
                     if not related:
-                        res["problems"].append({"kind": "changed", "module": f, "owners": names})
+                        # exact structural test for the one accepted difference: the model lost to_multipart / `import json` and nothing
+                        # else, and every operation of D that sends it as multipart/form-data is an affected operation
+                        mp_users = [u for u, (k0, oj) in ops1.items() if set(names) & multipart_models(oj)]
+                        if f.startswith("models/") and mp_users and all(api_related(u) for u in mp_users) \
+                                and strip_multipart(content) == strip_multipart(files2[f]) and strip_multipart(content) is not None \
+                                and b"to_multipart" not in files2[f]:
+                            res["problems"].append({"kind": "multipart-flag", "module": f, "owners": names,
+                                                    "multipart_users": [ops1[u][0] for u in mp_users]})
+                        else:
+                            res["problems"].append({"kind": "changed", "module": f, "owners": names})
                     elif f.startswith("api/") and not named:
                         res["problems"].append({"kind": "undiagnosed-change", "module": f, "owners": names})
             # ---- (ii) survivors import and execute
@@ -628,6 +710,11 @@ def stage_c(run, tier, rng, replay_cases=None):
         for p in r["problems"]:
             payload = {"label": r["label"], "inserts": r["inserts"], "problem": p, "owner": r.get("owner"), "doc": r.get("doc")}
             g = guard.get(i, {})
+            if p["kind"] == "multipart-flag":
+                if run.known_finding("multipart_flag_follows_operation",
+                        f"document '{r['label']}' + {r['inserts']}: {p['module']} lost exactly its to_multipart method / `import json`; every operation that sends "
+                        f"{p['owners']} as multipart/form-data ({p['multipart_users']}) is an operation affected by the bad piece"):
+                    continue
             if p["kind"] in ("import", "execute") and g.get("union") is False and p.get("missing"):
                 # the failing survivor must reach the class whose module is missing through an unrecorded (union member) edge
                 hit = None
@@ -677,8 +764,8 @@ def replay_witnesses(run):
         gt = a2.to_coq()
         guard_false = run_cases(HDR, [f"g_no_union_edge_to_failing {gt} && g_no_name_pressure {gt}"])
         run.note_case({"witness": fid}, nontrivial=True, kind="C:witness")
-        if broken and guard_false:
-            run.known_finding(fid, f"recorded witness still fails: {broken[0][:200]} (guard false on the abstracted graph)")
+        if broken and guard_false and run.known_finding(fid, f"recorded witness still fails: {broken[0][:200]} (guard false on the abstracted graph)"):
+            pass
         elif broken:
             run.violation("oracle", {"witness": fid, "broken": broken[:3], "doc": doc, "note": "a surviving module refers to something that was removed although the guards hold"})
 
